@@ -211,6 +211,9 @@ func runC10(c *engine.Ctx) {
 
 	// ---- R14 ----
 	checkOrderedHandlers(c, "R14")
+
+	// ---- R15 a proxy type uses one port manager, of its protocol (shared with C09.R6) ----
+	checkPortBookkeeping(c, "R15")
 }
 
 // checkQueuedClosureCaptures: a closure that is stored for later execution (appended to a closeFuncs-like slice field)
